@@ -60,6 +60,16 @@ CLAIMED = {
     note="PARTIAL: the JUnit aggregator (one testcase per finished test, reruns, stored output, XML validity; candidate defect F8) and the human summary line are not yet modelled or checked.",
     technique="Lean 4 proof (invariant) + differential correspondence through a stepping hook",
     design="§5 C17"),
+ "C03": dict(
+    text="Lean 4 theorems: the classification table read off the property (pass iff exit 0 without leak or pipe error; leak iff exit 0 with leak; any other own ending is a failure carrying the signal; timeout only on the terminated-by-nextest path; exec-fail iff not spawned — or a pipe read error, stated outright), decoding of every raw wait status (kernel-evaluated complete table), and flaky iff the last attempt passed after earlier attempts (flaky_iff). Tied to the code by an EXHAUSTIVE differential run of the real create_execution_result over all exit codes and signals.",
+    note="PARTIAL: the executor paths that set Timeout / ExecFail / leaked (run_test_inner, detect_fd_leaks) are not modelled yet; they need the unit state machine and the end-to-end engine.",
+    technique="Lean 4 proof (case analysis, complete finite tables by kernel evaluation) + exhaustive differential correspondence",
+    design="§5 C03"),
+ "C07": dict(
+    text="Lean 4 theorems on the backoff iterator for every policy: exactly `count` delays (count_exact), fixed = the same delay every time (fixed_delay), exponential = base·2^k (exp_delay_closed_form), capped = min(base·2^k, max-delay) (exp_delay_capped); with C06.cli_retries_wins (--retries replaces every policy) and C10.no_start_after_cancel (a retry request is refused once the run is being cancelled). Tied to the code by differential checking of the real BackoffIter (jitter bounds checked on the implementation's samples).",
+    note="PARTIAL: the attempt loop (retry until pass or N+1 attempts, stop on success, delay actually waited, pauses excluded) is executor behaviour not yet modelled; end-to-end engine pending.",
+    technique="Lean 4 proof (induction over the iterator) + differential correspondence",
+    design="§5 C07"),
 }
 NOT_YET = "not yet claimed: model/theorems for this property are still being built (see DESIGN.md §5); no other technique is substituted"
 
